@@ -217,6 +217,12 @@ static void build_pools() {
         }
         for (auto d : { "\xe3\x80\x82", "\xef\xbc\x8e", "\xe3\x80\x82\xe3\x80\x82", "a\xe3\x80\x82", "\xe3\x80\x82" "com" }) doms.push_back(d);
     }
+    {   // all-ASCII names with an underscore label (legal only with LABELS_ALLOW_UNDERSCORE) whose conversion is NOT the identity:
+        // malformed A-labels, over-long labels, over-long names - a copy that skips the converter for "plain ASCII" answers differently
+        for (auto d : { "a_b.xn--0.com", "a_b.xn--a.com", "_dmarc.xn---abc.com", "_sip._tcp.xn--zz--zz.com", "a_b.xn--p1ai", "x_y.xn--80a1acny.xn--p1ai", "a_b.XN--0.com" }) doms.push_back(d);
+        doms.push_back("a_b." + string(64, 'a') + ".com"); doms.push_back("a_b." + string(63, 'a') + ".com");
+        { string d = "a_b."; while (d.size() < 250) d += "abcdefghi."; doms.push_back(d + "com"); }
+    }
     {   // a > 253 octet domain and an exactly-253 one
         string d; while (d.size() < 250) d += "abcdefghi.";
         doms.push_back(d + "com"); doms.push_back(d.substr(0, 240) + "abcdefghi.com");
@@ -530,6 +536,7 @@ static Plan gen_corpus(const string &prop, uint64_t seed, long long index) {
 }
 
 static Plan gen_plan(const string &prop, const string &cfg, uint64_t seed, long long index) {
+    if (cfg == "tldsweep") { Plan p; p.prop = prop; p.cfg = cfg; p.seed = seed; p.index = index; p.fill = sim_mix64(seed ^ (uint64_t)index ^ 0x5EE9); return p; }
     if (cfg == "small") return gen_small(prop, seed, index);
     if (cfg == "corpus") return gen_corpus(prop, seed, index);
     if (prop == "C19") return gen_c19(cfg, seed, index);
@@ -1140,6 +1147,67 @@ struct Exec {
     }
 };
 
+// "tldsweep": a fast front end for one family of history dependence - look-up shortcuts (hashed or otherwise abbreviated keys)
+// that answer for a label they never compared.  One object validates an address under every TLD of the table (whatever
+// cache exists is now full), then tens of thousands of addresses whose last label is NOT in the table; each must be
+// decided exactly like such an address was decided before the warm-up.  No per-probe reference runs, no logging: volume is
+// the point.  A discrepancy is handed back as an ordinary history plan (set-up, the warm-up validations, the probe), which
+// the ordinary executor, oracle and shrinker then take over.
+static uint64_t g_sweep_probes = 0;
+static bool run_sweep(const Plan &p, vector<Viol> &viols, Plan &derived) {
+    sim_rng r = sim_derive(p.seed ^ sim_mix64((uint64_t)p.index * 0x9E3779B97F4A7C15ULL + 77), 1);
+    int nt = shim_tld_count();
+    std::set<string> member;
+    for (int i = 0; i < nt; i++) { string n = shim_tld_name(i); for (auto &c : n) if (c >= 'A' && c <= 'Z') c = (char)(c + 32); member.insert(n); }
+    // ASCII modes only: in mode 6531 an unknown label may also fail in the IDN conversion, which is not what is swept here
+    int mode = (int)sim_below(&r, 3);
+    size_t esz = shim_eav_size();
+    void *e = malloc(esz); memset(e, 0xa5, esz);
+    sim_ledger_reset(p.fill); sim_conv_begin(0, 0, 0);
+    g_sim_tag = 0;
+    shim_init(e); shim_set_rfc(e, mode);
+    bool ok = shim_setup(e) == 0;
+    shim_set_tld_check(e, 1);
+    auto call = [&](const string &a, int &ret, int &ec, int &rc) { ret = shim_is_email(e, a.c_str(), a.size()); ec = shim_errcode(e); shim_res rr; shim_get_result(e, &rr); rc = rr.present ? rr.rc : -9999; };
+    int b_ret = 0, b_ec = 0, b_rc = 0;
+    string base_label = "qzxqjvkqz";
+    if (ok) call("u@m." + base_label, b_ret, b_ec, b_rc);
+    vector<string> warm;
+    if (ok) {
+        vector<int> order(nt); for (int i = 0; i < nt; i++) order[i] = i;
+        for (int i = nt; i > 1; i--) std::swap(order[i - 1], order[sim_below(&r, (uint64_t)i)]);
+        for (int i : order) { string a = string("u@m.") + shim_tld_name(i); int x, y, z; call(a, x, y, z); warm.push_back(a); }
+    }
+    long nprobes = 20000; bool found = false; string bad; char b[200];
+    static const char AL[] = "abcdefghijklmnopqrstuvwxyz0123456789-";
+    for (long i = 0; ok && i < nprobes && !found; i++) {
+        string l; unsigned k = (unsigned)sim_below(&r, 4);
+        if (k < 2) { size_t n = 2 + sim_below(&r, 11); for (size_t j = 0; j < n; j++) l += AL[sim_below(&r, j == 0 || j + 1 == n ? 26 : 37)]; }
+        else if (k == 2) { l = shim_tld_name((int)sim_below(&r, (uint64_t)nt)); unsigned m = (unsigned)sim_below(&r, 3); if (m == 0 && !l.empty()) l[sim_below(&r, l.size())] = AL[sim_below(&r, 26)]; else if (m == 1) l += AL[sim_below(&r, 26)]; else if (l.size() > 2) l.erase(sim_below(&r, l.size()), 1); }
+        else { size_t n = 2 + sim_below(&r, 9); for (size_t j = 0; j < n; j++) { char c = AL[sim_below(&r, 26)]; l += (char)(sim_below(&r, 2) ? c - 32 : c); } }
+        string low = l; for (auto &c : low) if (c >= 'A' && c <= 'Z') c = (char)(c + 32);
+        if (member.count(low) || l.size() < 2 || l[0] == '-' || l.back() == '-' || (l.size() > 3 && l[2] == '-' && l[3] == '-')) continue;
+        { string d = "m." + l; if (shim_is_special_domain(d.c_str(), d.c_str() + d.size()) != 0) continue; }      // test, invalid, localhost, onion ...: decided before the table
+        int ret, ec, rc; call("u@m." + l, ret, ec, rc); g_sweep_probes++;
+        if (ret != b_ret || ec != b_ec || rc != b_rc) {
+            found = true; bad = "u@m." + l;
+            snprintf(b, sizeof b, "': ret=%d errcode=%d rc=%d, an unknown label before the warm-up: ret=%d errcode=%d rc=%d", ret, ec, rc, b_ret, b_ec, b_rc);
+        }
+    }
+    g_sim_in_free = 1; shim_free(e); g_sim_in_free = 0;
+    g_sim_tag = SIM_TAG_NONE;
+    free(e);
+    if (!found) return true;
+    Viol v; v.cls = "C13:outcome-differs-from-fresh-object"; v.detail = "after validating an address under every TLD of the table, '" + bad + b; viols.push_back(v);
+    derived = Plan(); derived.prop = p.prop; derived.cfg = "nofault"; derived.seed = p.seed; derived.index = p.index; derived.fill = p.fill; derived.nobj = 1; derived.amode = 0;
+    Op a; a.k = SET_RFC; a.v = mode; derived.ops.push_back(a);
+    Op s; s.k = SETUP; derived.ops.push_back(s);
+    Op t; t.k = SET_TLD; t.v = 1; derived.ops.push_back(t);
+    for (auto &w : warm) { Op o; o.k = IS_EMAIL; o.a = w; derived.ops.push_back(o); }
+    Op pr; pr.k = IS_EMAIL; pr.a = bad; derived.ops.push_back(pr);
+    return true;
+}
+
 // Runs one plan; returns true when no violation.  Sanitizer reports kill the process
 // (exit 77) and are classified by the driver from the B line in flight.
 static vector<string> g_last_nlog;
@@ -1196,6 +1264,7 @@ static sj::Value stats_json() {
     j.set("containment_checks", ST.contain_checks); j.set("ledger_checks", ST.ledger_checks);
     j.set("low_level_calls", ST.low_exec);
     j.set("idn_fault_attached", ST.fault_attached); j.set("idn_fault_fired", ST.fault_fired);
+    j.set("tld_sweep_probes", g_sweep_probes);
     j.set("alloc_fault_attached", ST.af_attached); j.set("alloc_fault_fired", ST.af_fired); j.set("calls_aborted_inside_library", ST.af_aborted); j.set("alloc_fault_not_comparable_with_fresh_object", ST.af_not_comparable);
     sj::Value fb = sj::Value::object(); fb.set("A_output_untouched", ST.fired_buf[0]); fb.set("B_buffer_produced", ST.fired_buf[1]); fb.set("C_converted_then_failed", ST.fired_buf[2]);
     j.set("idn_fault_fired_by_buffer_mode", fb);
@@ -1343,7 +1412,15 @@ int main(int argc, char **argv) {
             Plan p = gen_plan(prop, cfg, seed, idx);
             printf("B %lld\n", idx);
             vector<Viol> v; uint64_t hl, hn;
-            bool alive = run_plan(p, false, v, hl, hn, nullptr);
+            bool alive = true;
+            if (p.cfg == "tldsweep") {
+                Plan derived; g_abort_armed = true;
+                if (setjmp(g_abort_jmp) == 0) run_sweep(p, v, derived); else { Viol x; x.cls = "C13:abort-inside-library"; x.detail = g_abort_what; v.push_back(x); alive = false; }
+                g_abort_armed = false;
+                hl = hn = sim_mix64((uint64_t)idx ^ seed); ST.plans++; ST.plan_hashes.insert(hl); if (v.empty()) ST.nontrivial.insert(hl);
+                if (!v.empty() && !derived.ops.empty()) p = derived;
+            } else
+            alive = run_plan(p, false, v, hl, hn, nullptr);
             done++;
             if (v.empty()) {
                 printf("R %lld ok %016llx %016llx\n", idx, (unsigned long long)hl, (unsigned long long)hn);
